@@ -173,7 +173,10 @@ def attached_handles(w, rid=None, allow_removed=False):
 def gen_op_step(rng, w, h, depth=2, mut_weight=0.6, slices=False, reads=None, muts=None, keep_p=0.3, attr_p=0.0):
     """An op step through handle h (must be attached)."""
     r = w.res[w.objs[h.oid].rid]
-    if h.state == "removed":
+    if h.state == "removed" and getattr(h, "detached", None) is not None and has_path(h.detached[0], h.dpath) \
+            and kind_of(get_path(h.detached[0], h.dpath)) == h.kind:
+        c = get_path(h.detached[0], h.dpath)   # the removed value lives on as a detached object with a model of its own
+    elif h.state == "removed":
         c = {} if h.kind == "dict" else []   # content unknown to the model: ops must not depend on it
         muts = ["setitem", "update", "setdefault", "clear", "reset"] if h.kind == "dict" else ["append", "extend", "insert", "clear", "reset", "iadd"]
     else:
